@@ -1011,6 +1011,8 @@ def _literal_value(node: ast.AST) -> bool:
 
     if isinstance(node, ast.Call):
         if isinstance(node.func, ast.Name) and node.func.id in constants.SAFE_CALLABLES:
+            if node.keywords:
+                raise ValueError("Cannot find a deterministic value for a call with keyword arguments")
             args = [literal_value(arg) for arg in node.args]
             return getattr(builtins, node.func.id)(*args)
 
